@@ -7,8 +7,8 @@ package props
 import (
 	"encoding/json"
 	"fmt"
-	"os"
 	"math/big"
+	"os"
 	"sort"
 	"strings"
 
